@@ -467,7 +467,10 @@ fn avrod_rows(o: &Outcome) -> Vec<String> {
 }
 
 fn avrod_obs(o: &Outcome) -> String {
-    format!("rows={} r={}", show_list(&avrod_rows(o)), o.verdict)
+    // which call reports an error (decode or the flush of the batch holding the bad row) depends
+    // on the flush schedule by design: the outcome class is "ERR"
+    let v = if o.verdict.starts_with("ERR") { "ERR" } else { o.verdict.as_str() };
+    format!("rows={} r={}", show_list(&avrod_rows(o)), v)
 }
 
 /// end offsets of the complete frames (prefix + one row) at the front of `data`
@@ -542,9 +545,19 @@ fn run_avrod(t: &[&str]) -> (String, Vec<(String, String)>) {
             }
         }
         let obs = avrod_obs(o);
-        if obs != ref_obs {
+        // after an error the rows still buffered in the failing batch are lost, so with an error on both
+        // sides the rows delivered need only be consistent (one sequence a prefix of the other)
+        let both_err = o.verdict.starts_with("ERR") && reference.verdict.starts_with("ERR") && {
+            let (a, b) = (avrod_rows(o), avrod_rows(&reference));
+            let k = a.len().min(b.len());
+            a[..k] == b[..k]
+        };
+        if obs != ref_obs && !both_err {
             let mut tag = "oracle:chunk-dep".to_string();
             // the fields of a row decoded before a cut inside the row body are not rolled back
+            // (the end of the input is a decode boundary too: a stream truncated inside a row body)
+            let mut cuts = cuts;
+            cuts.push(n);
             if avrod_first_cut_in_row(alg, &data, &cuts).is_some() {
                 tag.push_str(" finding:avrod-partial-row");
             }
